@@ -1,0 +1,23 @@
+//go:build verif
+
+// Contracts for the three index mappings, checked by /verif (govc). Comment-only.
+
+package mapping
+
+// Constructors from a base (gamma) and an index offset: refuse gamma <= 1; otherwise a mapping satisfying the
+// interface contract MapOK.
+//@ func NewLogarithmicMappingWithGamma
+//@   serves C03 C13 C19
+//@   trusted MapOK of the constructed mapping is established in DESIGN 4 C03 (exp/ln axioms); assumed here until those obligations are generated
+//@   ensures reject: gamma <= 1.0 ==> result == nil && result1 != nil
+//@   ensures accept: gamma > 1.0 ==> result1 == nil && result != nil && fresh(result) && MapOK(result) && result.gamma == gamma && result.indexOffset == indexOffset
+//@ func NewLinearlyInterpolatedMappingWithGamma
+//@   serves C03 C13 C19
+//@   trusted MapOK of the constructed mapping is established in DESIGN 4 C03; assumed here until those obligations are generated
+//@   ensures reject: gamma <= 1.0 ==> result == nil && result1 != nil
+//@   ensures accept: gamma > 1.0 ==> result1 == nil && result != nil && fresh(result) && MapOK(result) && result.gamma == gamma && result.indexOffset == indexOffset
+//@ func NewCubicallyInterpolatedMappingWithGamma
+//@   serves C03 C13 C19
+//@   trusted MapOK of the constructed mapping is established in DESIGN 4 C03; assumed here until those obligations are generated
+//@   ensures reject: gamma <= 1.0 ==> result == nil && result1 != nil
+//@   ensures accept: gamma > 1.0 ==> result1 == nil && result != nil && fresh(result) && MapOK(result) && result.gamma == gamma && result.indexOffset == indexOffset
